@@ -50,6 +50,18 @@ def classify_stderr(txt, rc):
         if fm:
             kind += "@" + fm.group(1)
         return kind
+    m = re.search(r"==\d+== (Conditional jump or move depends on uninitialised value|Use of uninitialised value|Invalid read|Invalid write|Invalid free|Mismatched free|Syscall param [^\n]*uninitialised|Source and destination overlap|Jump to the invalid address)", txt)
+    if m:
+        # valgrind memcheck (runs with --exit-on-first-error): innermost frame that is not one of memcheck's own replacements
+        kind = "memcheck:" + re.sub(r"[^A-Za-z]+", "_", m.group(1)).strip("_").lower()[:60]
+        for fm in re.finditer(r"==\d+==\s+(?:at|by) 0x[0-9A-Fa-f]+: (\w+)", txt[m.end():]):
+            if fm.group(1) not in ("memcpy", "memmove", "memcmp", "bcmp", "memset", "strlen", "strcpy", "strcmp", "free", "malloc", "calloc", "realloc", "posix_memalign"):
+                kind += "@" + fm.group(1)
+                break
+        return kind
+    if "Exit program on first error (--exit-on-first-error=yes)" in txt:
+        m = re.search(r"==\d+== ([A-Z][^\n]{5,80})", txt)
+        return "memcheck:" + (re.sub(r"[^A-Za-z]+", "_", re.sub(r"-?\d+", "N", m.group(1))).strip("_").lower()[:60] if m else "report")
     m = re.search(r"runtime error: ([^\n]*)", txt)
     if m:
         msg = re.sub(r"0x[0-9a-f]+", "ADDR", m.group(1))
@@ -130,7 +142,7 @@ def parse_log(path, res):
     return done, open_idx, open_key, fault
 
 
-def run_shard(binpath, args, env, workdir, tag, prop, timeout, max_restarts=400, stop_after_crashes=None):
+def run_shard(binpath, args, env, workdir, tag, prop, timeout, max_restarts=400, stop_after_crashes=None, wrapper=()):
     """Run one shard to completion, restarting after every crashing case."""
     res = ShardResult()
     start = 0
@@ -142,7 +154,7 @@ def run_shard(binpath, args, env, workdir, tag, prop, timeout, max_restarts=400,
         logp = os.path.join(workdir, "%s.%d.log" % (tag, attempt))
         errp = os.path.join(workdir, "%s.%d.err" % (tag, attempt))
         distp = os.path.join(workdir, "%s.dist" % tag)
-        cmd = [binpath] + args + ["--log", logp, "--dist", distp, "--start", str(start)]
+        cmd = list(wrapper) + [binpath] + args + ["--log", logp, "--dist", distp, "--start", str(start)]
         with open(errp, "wb") as ef:
             try:
                 p = subprocess.run(cmd, env=env, stdout=ef, stderr=subprocess.STDOUT, timeout=timeout)
@@ -389,7 +401,7 @@ def run_check(prop, spec, tier, seed, workdir, t0, only_run=None):
             shards = shards(tier)
         libdir, bins = built[r["flavour"]]
         for sh in range(shards):
-            args = ["--prop", prop, "--tier", tier, "--seed", str(seed + rep), "--shard", "%d/%d" % (sh, shards)]
+            args = ["--prop", prop, "--tier", r.get("driver_tier", tier), "--seed", str(seed + rep), "--shard", "%d/%d" % (sh, shards)]
             args += [str(a) for a in r.get("args", [])]
             if tier in r.get("tier_args", {}):
                 args += [str(a) for a in r["tier_args"][tier]]
@@ -400,11 +412,11 @@ def run_check(prop, spec, tier, seed, workdir, t0, only_run=None):
             env = san_env(r["flavour"], libdir, r.get("leaks", False), workdir, tag)
             env.update(r.get("env", {}))
             timeout = r.get("timeout", {"quick": 600, "thorough": 7200})[tier]
-            jobs.append((ri, bins[r["driver"]], args, env, tag, timeout, r.get("stop_after_crashes")))
+            jobs.append((ri, bins[r["driver"]], args, env, tag, timeout, r.get("stop_after_crashes"), tuple(r.get("wrapper", ()))))
 
     def go(j):
-        ri, binp, args, env, tag, timeout, sac = j
-        return ri, run_shard(binp, args, env, workdir, tag, prop, timeout, stop_after_crashes=sac), args
+        ri, binp, args, env, tag, timeout, sac, wrapper = j
+        return ri, run_shard(binp, args, env, workdir, tag, prop, timeout, stop_after_crashes=sac, wrapper=wrapper), args
 
     results = []
     with ThreadPoolExecutor(max_workers=NCPU) as ex:
